@@ -193,11 +193,13 @@ def _run(ctx, quick, bd, rnd):
     def mc_impl(cfg, expect=None, workers=3):
         r = C.tlc_mc(ctx, "SessionImpl", cfg=cfg, workers=workers, timeout=1500, expect_violation=bool(expect), must_cover=not expect)
         return cfg, r, expect
-    impl_cfgs = [("MC_SessionImpl_q.cfg", None), ("MC_SessionImpl_qr.cfg", None), ("MC_SessionImpl_edge.cfg", "NoLostReadiness")]
+    # (cfg, what a mutation must be caught by)
+    impl_cfgs = [("MC_SessionImpl_q.cfg", None), ("MC_SessionImpl_qr.cfg", None), ("MC_SessionImpl_edge.cfg", "NoLostReadiness"),
+                 ("MC_SessionImpl_skip.cfg", "Deadlock"), ("MC_SessionImpl_exit.cfg", "ExitWins")]
     if not quick:
         impl_cfgs += [("MC_SessionImpl_late.cfg", None), ("MC_SessionImpl_t.cfg", None), ("MC_SessionImpl_tr.cfg", None), ("MC_SessionImpl_ts.cfg", None)]
     for cfg, expect in impl_cfgs:
-        fut_impl.append(pool.submit(mc_impl, cfg, expect, 3 if quick else 2))
+        fut_impl.append(pool.submit(mc_impl, cfg, expect, 2 if expect else (3 if quick else 2)))
 
     # the sequential object: export (as found, recorded defects excused), as-found demonstration, repaired design
     cfg_x = write_cfg(ctx, "mc_session_x", "MC_Session_x.cfg", MaxOps=maxops)
@@ -208,9 +210,9 @@ def _run(ctx, quick, bd, rnd):
     if ntrans < 1000:
         raise C.ToolError("MC_Session exported only %d transitions" % ntrans)
     cfg_a = write_cfg(ctx, "mc_session_asfound", "MC_Session_q.cfg", MaxOps=6, Excuse="FALSE")
-    fut_a = pool.submit(C.tlc_mc, ctx, "MC_Session", cfg=cfg_a, workers=2, timeout=600, expect_violation=True, must_cover=False, cont=True)
+    fut_a = pool.submit(C.tlc_mc, ctx, "MC_Session", cfg=cfg_a, workers=1, timeout=600, expect_violation=True, must_cover=False, cont=True)
     cfg_f = write_cfg(ctx, "mc_session_fixed", "MC_Session_q.cfg", MaxOps=6 if quick else 8, Excuse="FALSE", AsFoundAbort="FALSE", AsFoundRemount="FALSE")
-    fut_f = pool.submit(C.tlc_mc, ctx, "MC_Session", cfg=cfg_f, workers=2, timeout=900)
+    fut_f = pool.submit(C.tlc_mc, ctx, "MC_Session", cfg=cfg_f, workers=1, timeout=900)   # (1 worker: with the VIEW the bound on the history length makes the explored set depend on the order)
     tick("MC_Session export")
 
     # ---- 2. sequential histories on real mounts
@@ -253,7 +255,7 @@ def _run(ctx, quick, bd, rnd):
     seen_dbg = set()
     seq_rows_all = 0
     opseen, resseen = {}, {}
-    counters = {"blocked_get_request": 0, "released_by_wake": 0, "released_by_unmount": 0, "requests_delivered": 0, "hangs": 0, "lazy_unmounts": 0}
+    counters = {"blocked_get_request": 0, "released_by_wake": 0, "released_by_unmount": 0, "requests_delivered": 0, "hangs": 0}
     for j, fu in zip(jobs, fut_seq):
         v, n = fu.result()
         rows = C.read_ndjson(j[2])
@@ -326,9 +328,10 @@ def _run(ctx, quick, bd, rnd):
     for fu in fut_impl:
         cfg, r, expect = fu.result()
         if expect:
-            if expect not in r["violated"]:
-                raise C.ToolError("SessionImpl/%s: the mutation should violate %s (the invariant would be vacuous)" % (cfg, expect))
-            impl[cfg] = "violates %s as it must (edge-triggered fuse descriptor)" % expect
+            caught = "Deadlock reached" in r["output"] if expect == "Deadlock" else expect in r["violated"]
+            if not caught:
+                raise C.ToolError("SessionImpl/%s: the mutation should be caught by %s (the property would be vacuous)" % (cfg, expect))
+            impl[cfg] = "mutation caught by %s, as it must be" % expect
         else:
             if r["violated"] or "Temporal properties were violated" in r["output"] or "Deadlock reached" in r["output"]:
                 C.log(r["output"][-4000:])
